@@ -104,11 +104,12 @@ Definition status_example (name : string) (ppid : N) : list byte :=
   status_text (lit name) [(lit "Umask", lit "0022"); (lit "Pid", lit "77")] ppid [lit "Uid:	0	0"; lit "no colon line"].
 Definition proc_example (p : Z) : option (list byte) :=
   if p =? 4242 then Some (status_example "leaf" 4000) else if p =? 4000 then Some (status_example "mid (x)" 331)
-  else if p =? 331 then Some (status_example "root anc" 1) else None.
+  else if p =? 331 then Some (status_example " root anc	" 1) else if p =? 77 then Some (status_example "   " 0) else None.
 Example C12_nonvacuous_rpname :
-  option_map string_of_list_byte (rpname_walk (g_consts G) proc_example 4 4242) = Some "root anc"%string
+  option_map string_of_list_byte (rpname_walk (g_consts G) proc_example 4 4242) = Some " root anc	"%string    (* blanks are part of the name *)
+  /\ option_map string_of_list_byte (rpname_walk (g_consts G) proc_example 4 77) = Some "   "%string
   /\ option_map string_of_list_byte (rpname_walk (g_consts G) proc_example 4 5) = Some "(unknown)"%string.
-Proof. vm_compute. split; reflexivity. Qed.
+Proof. vm_compute. repeat split; reflexivity. Qed.
 
 Print Assumptions C12_table.
 Print Assumptions C12_cgroup_line.
